@@ -27,6 +27,11 @@ def deco(n):
         c.decorated = getattr(c, 'decorated', []) + [n]
         return c
     return w
+def hookd(f):
+    def w(cls, *a, **kw):
+        cls.hooked = getattr(cls, 'hooked', 0) + 1
+        return f(cls, *a, **kw)
+    return w
 """
 BASES = {"none": "", "one": "Base0", "diamond": "Left, Right"}
 MEMBERS = {
@@ -42,6 +47,13 @@ MEMBERS = {
     "super0": ["def who(self):", "    return 'K>' + super().who()"],
     "super2": ["def who(self):", "    return 'K2>' + super(K, self).who()"],
     "init-subclass": ["def __init_subclass__(cls, extra=0, **kw):", "    super().__init_subclass__(**kw)", "    cls.extra = extra"],
+    # the two hooks type.__new__ makes classmethods implicitly (plain functions only), and __new__ (implicit staticmethod)
+    "init-subclass-explicit-cm": ["@classmethod", "def __init_subclass__(cls, extra=0, **kw):", "    super().__init_subclass__(**kw)", "    cls.extra = extra"],
+    "init-subclass-decorated": ["@hookd", "def __init_subclass__(cls, extra=0, **kw):", "    super().__init_subclass__(**kw)", "    cls.extra = extra"],
+    "class-getitem": ["def __class_getitem__(cls, k):", "    return (cls.__name__, k)"],
+    "class-getitem-explicit-cm": ["@classmethod", "def __class_getitem__(cls, k):", "    return (cls.__name__, 'cm', k)"],
+    "class-getitem-decorated": ["@hookd", "def __class_getitem__(cls, k):", "    return (cls.__name__, 'd', k)"],
+    "new": ["def __new__(cls, *a, **k):", "    o = super().__new__(cls)", "    o.made = cls.__name__", "    return o"],
     "dunder-call": ["def __call__(self, a):", "    return a + 1", "def __repr__(self):", "    return 'K()'"],
     "class-var-in-method-default": ["d = 4", "def md(self, a=d):", "    return a"],
     "lambda-member": ["lam = lambda self, q=2: q * 3"],
@@ -87,13 +99,13 @@ def show(c):
     return sorted(d.items())
 def probe(c):
     out = [('vars', show(c)), ('mro', [x.__name__ for x in c.__mro__]), ('type', type(c).__name__), ('name', c.__name__)]
-    for attr in ('tag', 'meta_kw', 'decorated', 'extra'):
+    for attr in ('tag', 'meta_kw', 'decorated', 'extra', 'hooked'):
         if hasattr(c, attr): out.append((attr, repr(getattr(c, attr))))
     try:
         o = c()
     except Exception as e:
         out.append(('construct', type(e).__name__)); return out
-    for call in ('o.m(1)', 'o.m(1, b=5)', 'c.s(4)', 'o.s(4)', 'c.c(3)', 'o.c(3)', 'o.p', 'o.who()', 'o.v', 'o(1)', 'repr(o)', 'o.md()', 'o.lam()', 'c.Inner().im()', 'c.Inner.z'):
+    for call in ('o.m(1)', 'o.m(1, b=5)', 'c.s(4)', 'o.s(4)', 'c.c(3)', 'o.c(3)', 'o.p', 'o.who()', 'o.v', 'o(1)', 'repr(o)', 'o.md()', 'o.lam()', 'c.Inner().im()', 'c.Inner.z', 'c[int].__class__.__name__', "c['k']", 'o.made'):
         try:
             out.append((call, repr(eval(call, {'o': o, 'c': c}))))
         except AttributeError:
@@ -109,12 +121,20 @@ def probe(c):
 def program(bases, meta, kws, ndeco, members, placement):
     cls = class_source(bases, meta, kws, ndeco, members)
     sub = []
-    if "init-subclass" in members:
-        sub = ["class Sub(K, extra=3):", "    pass", "L(('sub-extra', Sub.extra, getattr(Sub, 'tag', None)))"]
+    if any(m.startswith("init-subclass") for m in members):
+        sub = ["class Sub(K, extra=3):", "    pass", "L(('sub-extra', Sub.extra, getattr(Sub, 'tag', None), getattr(Sub, 'hooked', None)))"]
     elif bases != "none":
         sub = ["class Sub(K, tag='S'):", "    pass", "L(('sub-tag', Sub.tag, [x.__name__ for x in Sub.__mro__]))"]
     if placement == "module":
         body = cls + ["L(probe(K))"] + sub
+        return PRE + "\n".join(body) + "\n"
+    if placement in ("redefined", "redefined-in-function"):
+        # the same name bound by an earlier class statement with another body in the same scope
+        old = ["class K:", "    old_attr = 'old'", "    x = 'old-x'", "    def old_m(self):", "        return self.old_attr", "    def m(self, a):", "        return 'old-m'", "Old = K"]
+        if placement == "redefined":
+            body = old + cls + ["L(probe(Old))", "L(probe(K))"] + sub
+            return PRE + "\n".join(body) + "\n"
+        body = ["def make():"] + ["    " + l for l in old + cls] + ["    return Old, K", "Old, K = make()", "L(probe(Old))", "L(probe(K))"] + sub
         return PRE + "\n".join(body) + "\n"
     if placement == "function":
         body = ["def make():"] + ["    " + l for l in cls] + ["    return K", "K = make()", "L(probe(K))"] + sub
@@ -177,7 +197,7 @@ def main(argv):
         for meta in (False, True):
             for kws in (False, True):
                 for ndeco in (0, 1, 2):
-                    for placement in ("module", "function", "class"):
+                    for placement in ("module", "function", "class", "redefined", "redefined-in-function"):
                         for members in member_sets:
                             if ("super0" in members or "super2" in members) and bases == "none":
                                 continue
@@ -185,7 +205,16 @@ def main(argv):
                                 continue
                             specs.append((bases, meta, kws, ndeco, tuple(members), placement))
     if ck.tier == "quick":
-        specs = ck.rng.sample(specs, min(len(specs), 900))
+        # a stratified sample: every member set and every placement at least a few times, the rest at random
+        must = []
+        seen = {}
+        for sp in ck.rng.sample(specs, len(specs)):
+            key = (sp[4], sp[5])
+            if seen.get(key, 0) < 2:
+                seen[key] = seen.get(key, 0) + 1
+                must.append(sp)
+        rest = [sp for sp in specs if sp not in set(must)]
+        specs = must + ck.rng.sample(rest, max(0, min(len(rest), 1200 - len(must))))
     items = [(s, gen_prog.CONFIGS[(i * 3 + 1) % 8]) for i, s in enumerate(specs)]
     results = par.pmap(observe, items)
     failing = []
